@@ -268,7 +268,6 @@ package keeper
 
 //@ func (Keeper) GetAllNodesByStatusAndReputationAndRole(ctx, role, status, reputation, size) (list)
 //@   nopanic [C02.filter.nopanic]
-//@   requires forall k bytes :: rawhas(Node, k) ==> k == keyof(Node, rawget(Node, k).Creator)
 //@   requires forall c string :: has(Pledge, c) ==> i64(Pledge[c].TotalStorage - Pledge[c].UsedStorage) == Pledge[c].TotalStorage - Pledge[c].UsedStorage
 //@   modifies nothing
 //@   ensures [C15.filter.stored] forall j int :: 0 <= j && j < len(list) ==> has(Node, list[j].Creator) && Node[list[j].Creator] == list[j]
@@ -311,7 +310,6 @@ package keeper
 //@ store NodeRound kv=node/NodeRound/value/ key=node_NodeRoundKey raw
 
 //@ func (Keeper) GetAllSuperNodes(ctx) (list)
-//@   requires forall k bytes :: rawhas(Node, k) ==> k == keyof(Node, rawget(Node, k).Creator)
 //@   modifies nothing
 //@   nopanic [C02.supers.nopanic]
 //@   ensures [C15.supers.stored] forall j int :: 0 <= j && j < len(list) ==> has(Node, list[j].Creator) && Node[list[j].Creator] == list[j] && list[j].Role == 1
@@ -321,7 +319,6 @@ package keeper
 
 // round-robin choice of one super node that is eligible for the shard and not on the ignore list
 //@ func (Keeper) GetNextSuperNodes(ctx, status, reputation, ignore, size) (n)
-//@   requires forall k bytes :: rawhas(Node, k) ==> k == keyof(Node, rawget(Node, k).Creator)
 //@   modifies NodeRound
 //@   nopanic [C02.super.nopanic]
 //@   ensures [C15.super.stored] n.Creator != "" ==> has(Node, n.Creator) && Node[n.Creator] == n && n.Role == 1
@@ -350,7 +347,6 @@ package keeper
 
 // RandomSP: the providers chosen for `count` new shards of `size` bytes, never one from the ignore list
 //@ func (Keeper) RandomSP(ctx, count, ignore, size) (sps)
-//@   requires forall k bytes :: rawhas(Node, k) ==> k == keyof(Node, rawget(Node, k).Creator)
 //@   requires forall c string :: has(Pledge, c) ==> i64(Pledge[c].TotalStorage - Pledge[c].UsedStorage) == Pledge[c].TotalStorage - Pledge[c].UsedStorage
 //@   modifies NodeRound
 //@   nopanic [C02.sp.nopanic] when count >= 1
